@@ -58,14 +58,16 @@ class Check:
         self.replay_dir = os.path.join(OUT, 'replays', pid)
         os.makedirs(self.replay_dir, exist_ok=True)
         self.nreplay = 0
+        self.replay_repeat = None
+        self.died_confirms = True   # a replay that kills the process confirms a violation (not for checks that EXPECT a loud exit)
         self.scratch = tempfile.mkdtemp(prefix='verif-%s-' % pid)
 
     # ------------------------------------------------------------ running harnesses
-    def run(self, group, jobs, nproc=None, bounds=None):
+    def run(self, group, jobs, nproc=None, bounds=None, job_timeout=None):
         """jobs: list of (short harness name with package, kwargs)"""
         t = time.time()
         full = [(MOD + '/' + f, kw) for f, kw in jobs]
-        rs = runner.run_jobs(self.ssa, full, nproc)
+        rs = runner.run_jobs(self.ssa, full, nproc, job_timeout)
         counts, viol, inc = runner.summarize(rs)
         for k, v in counts.items():
             self.counts[k] = self.counts.get(k, 0) + v
@@ -104,7 +106,19 @@ class Check:
         self.testbins[pkg] = out
         return out
 
-    def replay(self, harness_full, model, params=None, save=True, timeout=60):
+    def replay(self, harness_full, model, params=None, save=True, timeout=60, repeat=None):
+        """repeat: schedule-dependent properties (map iteration order) are replayed up to `repeat` times in fresh
+        processes until the violation shows (the Go runtime draws a new order every time)"""
+        repeat = repeat or self.replay_repeat
+        outcome, path = self._replay_once(harness_full, model, params, timeout)
+        n = 1
+        while repeat and n < repeat and outcome == 'ok':
+            outcome, _ = self._replay_once(harness_full, model, params, timeout, path)
+            n += 1
+        self.replays.append({'file': path, 'outcome': outcome[:300], 'runs': n})
+        return outcome, path
+
+    def _replay_once(self, harness_full, model, params=None, timeout=60, path=None):
         """run the harness natively on the model's values. returns (outcome string, replay file path)"""
         pkgpath, short = harness_full.rsplit('.', 1)
         pkg = pkgpath[len(MOD) + 1:] if pkgpath.startswith(MOD) else pkgpath
@@ -116,9 +130,10 @@ class Check:
                 vals[tag] = {'Kind': 'bool', 'B': v['v']}
             else:
                 vals[tag] = {'Kind': v['kind'], 'V': v['v']}
-        self.nreplay += 1
-        path = os.path.join(self.replay_dir, '%s-%d.json' % (short, self.nreplay))
-        json.dump({'Harness': short, 'Package': pkg, 'Values': vals, 'Params': params or {}}, open(path, 'w'), indent=1)
+        if path is None:
+            self.nreplay += 1
+            path = os.path.join(self.replay_dir, '%s-%d.json' % (short, self.nreplay))
+            json.dump({'Harness': short, 'Package': pkg, 'Values': vals, 'Params': params or {}}, open(path, 'w'), indent=1)
         tb = self.testbin(pkg)
         if tb is None:
             return 'replay-build-failed', path
@@ -137,7 +152,6 @@ class Check:
             outcome = 'died: rc=%d %s' % (r.returncode, ' | '.join(tail)[-600:])
         else:
             outcome = 'no-result'
-        self.replays.append({'file': path, 'outcome': outcome[:300]})
         return outcome, path
 
     def triage(self, viol, is_known=None, describe=None):
@@ -154,7 +168,7 @@ class Check:
             outcome, path = self.replay(v['harness'], v['model'], v.get('params'))
             v['replay'] = path
             v['replay_outcome'] = outcome
-            confirmed = outcome.startswith('violated') or outcome.startswith('died') or outcome == 'timeout'
+            confirmed = outcome.startswith('violated') or ((outcome.startswith('died') or outcome == 'timeout') and self.died_confirms)
             if not confirmed:
                 self.unconfirmed.append(v)
                 self.inconclusive.append({'why': 'solver model did not reproduce natively (%s): %s %s' % (outcome, v['name'], path), 'harness': v['harness']})
